@@ -302,6 +302,9 @@ class Pool:
             elif isinstance(o, array.array):
                 out.append((name, len(o), o.tobytes()))
             elif isinstance(o, (list, tuple)):
+                # identity of the items too: a routine that swaps the caller's views for detached copies leaves the
+                # values equal but has modified the container it was given
+                out.append((name + "/item-identities", len(o), tuple(id(x) for x in o) if name.startswith("container") else None))
                 out.append((name, len(o), json.dumps([x.tolist() if isinstance(x, np.ndarray) else (list(x) if isinstance(x, (array.array, tuple)) else x) for x in o])))
             else:
                 out.append((name, None, repr(o)))
